@@ -18,7 +18,9 @@ CFG = dict(
          "K: real saveState in a child process killed at every step boundary the source contains (and inside the write of the temporary file: "
          "0, 1/4, 1/2, 3/4 of its bytes), after 0..2 complete saves, from directories with empty/old main file, with/without backup, with/without "
          "stale complete or partial temporary file; the directory is then read by the real start-up (cmd/dastard built with -tags verif: "
-         "makeFileExist + setupViper). R: typed source configurations (SimPulse, Triangle, Lancero, Abaco, Roach), record lengths, trigger "
+         "makeFileExist + setupViper). R: typed source configurations (SimPulse, Triangle, Lancero, Abaco, Roach), record lengths (ordinary pairs, the boundary "
+         "Nsamples = Npresamp+1 with Npresamp 1/2/3/500/random, large values, and illegal saved pairs for which the start-up's defaulting rule "
+         "400 / 2*Npresamp is modelled in Lean and compared), trigger "
          "settings and base path saved by the real saveState (optionally over a file of an earlier run) and restored by the real start-up "
          "(setupViper, RunRPCServer, PrepareRun), compared field by field. Non-trivial = a SENDALL reply with several topics after repeated "
          "updates, a read-back of a self-made save, a save window with a change plus a return-to-saved-value of another topic, a kill strictly inside the save, a kill inside the write, or a typed round trip; distinct by input line.",
@@ -75,6 +77,8 @@ THEOREMS = [
     ("DastardV.Props.C16", "DastardV.C16.C16_sendall_needs_json_text"),
     ("DastardV.Props.C16", "DastardV.C16.C16_saved_has_latest"),
     ("DastardV.Props.C16", "DastardV.C16.C16_saved_when_quiet"),
+    ("DastardV.Props.C16", "DastardV.C16.C16_lengths_legal_restored"),
+    ("DastardV.Props.C16", "DastardV.C16.C16_lengths_sanitized_legal"),
     ("DastardV.Props.C16", "DastardV.C16.C16_crash_safe_of_shape"),
     ("DastardV.Props.C16", "DastardV.C16.C16_crash_safe"),
     ("DastardV.Props.C16", "DastardV.C16.C16_crash_safe_history"),
